@@ -4,6 +4,7 @@ package c09
 
 import (
 	"bytes"
+	"fmt"
 	"strconv"
 	"strings"
 	"testing"
@@ -188,6 +189,33 @@ func TestConcat(t *testing.T) {
 			}
 		}
 	})
+}
+
+// TestConcatClosedPairs: every ordered pair of the closed block constructs, as A and as B (B alone or behind a word
+// line), under every configuration: what one complete construct leaves behind (memos, flags, lists in the parse
+// context) meets every other construct deterministically, not only when the random generators happen to pair them.
+func TestConcatClosedPairs(t *testing.T) {
+	blocks := gen.ClosedBlocks(true)
+	idx, n := 0, 0
+	for _, a := range blocks {
+		for _, b := range blocks {
+			for _, pre := range []string{"", "w\n\n"} {
+				idx++
+				if !kit.Mine(idx) {
+					continue
+				}
+				for _, cfg := range configs {
+					c := kit.NewCase("concat", cfg.String()).B("a", []byte(a)).B("h", []byte("## mid")).B("b", []byte(pre+b))
+					if kit.Check(t, c) {
+						kit.R.Class("gen:closed-pairs")
+						kit.R.NonTrivial(c)
+						n++
+					}
+				}
+			}
+		}
+	}
+	kit.R.Note("exhaustive_closed_pairs", fmt.Sprintf("%d closed block constructs: all ordered pairs x 2 placements x %d configurations", len(blocks), len(configs)))
 }
 
 // label variants: case changes within SimpleFold orbits, whitespace runs respaced
